@@ -10,5 +10,5 @@ def run(tier):
         "on three asymmetric records. TLC checks ListOrderRelations (every permutation of the list entries yields the "
         "correspondingly transposed expected spectrum; identical when first-appearance order is kept); labels containing blanks (two sharing their first word) are included; the replay runs BOTH list syntaxes for every scenario and checks "
         "the real output against the specification for every column order and with -s / --samples-file alternating.",
-        ["MCCreate_perm_quick.cfg", "MCCreate_names.cfg"], ["MCCreate_perm_t1.cfg", "MCCreate_c01_quick.cfg", "MCCreate_names.cfg"], [],
+        ["MCCreate_perm_quick.cfg", "MCCreate_names.cfg", "MCCreate_hist_quick.cfg"], ["MCCreate_perm_t1.cfg", "MCCreate_hist_t1.cfg", "MCCreate_c01_quick.cfg", "MCCreate_names.cfg"], [],
         env={"CREATE_BOTH_SYNTAX": "1"})
